@@ -131,6 +131,36 @@ class Cx:
             raise Inconclusive("closure passed to %r in %s: found %d" % (callee_rx, body.path, len(out)))
         return out[0]
 
+    def callee_exists(self, rx, facts=None):
+        f = facts or self.facts
+        r = re.compile(rx)
+        if any(r.search(p) for p in f.bodies_raw):
+            return True
+        return any(r.search(n) for n in f.callers())
+
+    def one_call(self, body, rx, what):
+        """The unique call to rx in body. A missing call is a VIOLATION when the callee still exists in
+        the crate (the function is there, this caller no longer uses it); if the callee is gone altogether
+        the anchor is missing (INCONCLUSIVE)."""
+        sites = body.calls(rx)
+        if len(sites) == 1:
+            return sites[0]
+        if not sites:
+            if self.callee_exists(rx, body.facts):
+                self.check(False, "%s: mandatory call missing" % what, None, {"callee": rx}, key="missing-call " + rx, body=body)
+                raise Inconclusive("%s: call missing (recorded as violation)" % what)
+            raise Inconclusive("%s: callee %r no longer exists in the crate" % (what, rx))
+        raise Inconclusive("%s: expected exactly one call, found %d" % (what, len(sites)))
+
+    def some_calls(self, body, rx, floor, what):
+        sites = body.calls(rx)
+        if len(sites) >= floor:
+            return sites
+        if self.callee_exists(rx, body.facts):
+            self.check(False, "%s: %d call(s), at least %d required" % (what, len(sites), floor), None, {"callee": rx}, key="missing-call " + rx, body=body)
+            raise Inconclusive("%s: call missing (recorded as violation)" % what)
+        raise Inconclusive("%s: callee %r no longer exists in the crate" % (what, rx))
+
     def sites(self, sites, floor, what):
         if len(sites) < floor:
             raise Inconclusive("%s: %d site(s), floor %d" % (what, len(sites), floor))
@@ -202,6 +232,8 @@ class Cx:
         return self.check(ok, what, b, {"first": repr(a), "then": repr(b)}, key="order " + what)
 
     def must_call(self, body, rx, what=None, depth=4):
+        if not self.callee_exists(rx, body.facts):
+            raise Inconclusive("must-call target %r no longer exists in the crate" % rx)
         ok = body.facts.must_call(body, rx, depth)
         detail = None
         if not ok:
